@@ -48,11 +48,13 @@ LexRec(r) ==
                                             THEN r.outs[CHOOSE k \in 1..Len(r.outs) : ~Agrees(r.outs[k], exp, r.etype)].forms
                                             ELSE r.outs[2].forms, exp |-> exp])
     ELSE IF r.outs[1].n > LinearBound(Len(r.text)) THEN Bad("lex.linear", LinearBound(Len(r.text)))
-    \* what the specification adds: which texts are errors, and the token stream
+    \* diag.*: comparison with the specified lexer (which texts are errors, the token stream with its
+    \* line numbers).  The statement only fixes these relative to the other delivery forms, so a
+    \* difference here is counted in the evidence and never makes a violation.
     ELSE IF ~FoldTableOK(r.fold) THEN Bad("record.shape", 0)
-    ELSE IF r.outs[1].err.id # exp.errk THEN Bad("lex.error", exp)
-    ELSE IF r.outs[1].toks # exp.toks THEN Bad("lex.tokens", exp)
-    ELSE IF ~Agrees(r.outs[1], exp, r.etype) THEN Bad("lex.type", exp)
+    ELSE IF r.outs[1].err.id # exp.errk THEN Bad("diag.lex.error", exp)
+    ELSE IF r.outs[1].toks # exp.toks THEN Bad("diag.lex.tokens", exp)
+    ELSE IF ~Agrees(r.outs[1], exp, r.etype) THEN Bad("diag.lex.type", exp)
     ELSE Good
 
 (* ---- steps ---------------------------------------------------------------------- *)
@@ -90,7 +92,7 @@ KvRec(r) ==
     ELSE IF Len(r.outs) # 1 THEN Bad("kv.chunking", [forms |-> r.outs[2].forms])
     \* the parser reads the whole token stream of the lexer: it cannot succeed on a text the
     \* specification says does not lex
-    ELSE IF r.outs[1].etype = "" /\ ~r.popts.single_block /\ L.err # NoErrL THEN Bad("kv.lexok", L.err)
+    ELSE IF r.outs[1].etype = "" /\ ~r.popts.single_block /\ L.err # NoErrL THEN Bad("diag.kv.lexok", L.err)
     ELSE Good
 
 (* ---- caller operations -------------------------------------------------------------- *)
@@ -110,8 +112,8 @@ CallsRec(r) ==
     IN  IF \E k \in 1..Len(r.outs) : r.outs[k].etype \notin {"", r.etype}
             THEN Bad("calls.total", [forms |-> r.outs[CHOOSE k \in 1..Len(r.outs) : r.outs[k].etype \notin {"", r.etype}].forms])
         ELSE IF Len(r.outs) # 1 THEN Bad("calls.chunking", [forms |-> r.outs[2].forms, exp |-> exp])
-        ELSE IF r.outs[1].err.id # ErrKind(exp.err) THEN Bad("calls.error", exp)
-        ELSE IF r.outs[1].res # exp.res THEN Bad("calls.results", exp)
+        ELSE IF r.outs[1].err.id # ErrKind(exp.err) THEN Bad("diag.calls.error", exp)
+        ELSE IF r.outs[1].res # exp.res THEN Bad("diag.calls.results", exp)
         ELSE Good
 
 Verdict(r) == CASE r.k = "lex" -> LexRec(r)
